@@ -87,6 +87,8 @@ func scalarFaults(name string, env *univ.Env, srv *drive.Server, cr *childResult
 	var recovers atomic.Int64
 	h := handler.New(env.ES)
 	h.AddTransport(transport.Websocket{Upgrader: websocket.Upgrader{CheckOrigin: func(*http.Request) bool { return true }}})
+	h.AddTransport(transport.SSE{KeepAlivePingInterval: 2 * time.Millisecond})
+	h.AddTransport(transport.MultipartMixed{})
 	h.AddTransport(transport.POST{})
 	h.SetRecoverFunc(func(ctx context.Context, r any) error {
 		recovers.Add(1)
@@ -97,7 +99,15 @@ func scalarFaults(name string, env *univ.Env, srv *drive.Server, cr *childResult
 		h.ServeHTTP(rw, r)
 	})
 	ts := httptest.NewServer(wrapped)
-	defer ts.Close()
+	// Close waits for outstanding handlers; one that hangs (a finding) must not hang the worker
+	defer func() {
+		done := make(chan struct{})
+		go func() { ts.CloseClientConnections(); ts.Close(); close(done) }()
+		select {
+		case <-done:
+		case <-time.After(5 * time.Second):
+		}
+	}()
 	post := func(q string) (int, string) {
 		b, _ := json.Marshal(map[string]any{"query": q})
 		resp, err := http.Post(ts.URL, "application/json", bytes.NewReader(b))
@@ -124,6 +134,34 @@ func scalarFaults(name string, env *univ.Env, srv *drive.Server, cr *childResult
 	}
 	count("fault_marshal_panic_post", 1)
 	cr.Distinct = append(cr.Distinct, name+"|scalar|marshal_panic_post")
+
+	// --- a value that serializes to something that is not JSON: the failure happens while the
+	// transport encodes the response (for the streaming transports inside their serialised write
+	// section); the request must end, and the server must keep serving
+	for _, acc := range []string{"application/json", "text/event-stream", "multipart/mixed"} {
+		b, _ := json.Marshal(map[string]any{"query": `{ scalar xboom(b: "minvalid:1") }`})
+		req, _ := http.NewRequest("POST", ts.URL, bytes.NewReader(b))
+		req.Header.Set("Content-Type", "application/json")
+		req.Header.Set("Accept", acc)
+		cl := &http.Client{Timeout: 15 * time.Second}
+		t0 := time.Now()
+		resp, err := cl.Do(req)
+		var rb []byte
+		if err == nil {
+			rb, err = io.ReadAll(resp.Body)
+			resp.Body.Close()
+		}
+		cr.Evals++
+		if err != nil && time.Since(t0) > 14*time.Second {
+			viol("a response whose encoding fails ("+acc+") never ended: the request hangs", map[string]any{"error": err.Error(), "bytes_received": string(rb)})
+		}
+		status, body = post(`{ scalar xboom(b: "ok") }`)
+		if status != 200 || !strings.Contains(body, `"xboom":"ok"`) {
+			viol("server does not answer correctly after a response whose encoding failed ("+acc+")", body)
+		}
+		count("fault_unencodable_value_"+acc, 1)
+		cr.Distinct = append(cr.Distinct, name+"|scalar|unencodable|"+acc)
+	}
 
 	for _, proto := range []string{"graphql-ws", "graphql-transport-ws"} {
 		d := websocket.Dialer{Subprotocols: []string{proto}}
